@@ -926,6 +926,7 @@ class TextXVisitor(RRELVisitor):
         rhs_rule, modifiers = children[2]
         cls = self._current_cls
         target_cls = None
+        obj_ref_rule = None
 
         if self.debug:
             self.dprint(f"Processing assignment {attr_name}{op}...")
@@ -963,6 +964,7 @@ class TextXVisitor(RRELVisitor):
             # store RREL related information
             cls_attr.scope_provider = rhs_rule.scope_provider
             cls_attr.match_rule_name = rhs_rule.rule_name
+            obj_ref_rule = rhs_rule
             # Target class is not the same as target rule
             target_cls = rhs_rule.cls
 
@@ -1033,6 +1035,12 @@ class TextXVisitor(RRELVisitor):
             )
 
         assignment_rule._attr_name = attr_name
+        if obj_ref_rule is not None:
+            # An attribute may be assigned at several places of a rule. The
+            # RREL expression and the match rule belong to the reference
+            # written at this place.
+            assignment_rule._scope_provider = obj_ref_rule.scope_provider
+            assignment_rule._match_rule_name = obj_ref_rule.rule_name
         assignment_rule._exp_str = attr_name  # For nice error reporting
         return assignment_rule
 
